@@ -261,6 +261,9 @@ OPERATOR_FORMS = [
     "f/g", "f/x", "x/f", "f/g/h", "f:(g + h)", "(f + g):h", "f/(g + h)", "f:g/h", "(f + g)/h", "f*x", "x*f", "f*g", "g*f",
     "f/g + h", "h + f/g", "f:(g + x)", "(f + x):g", "f/(g + x)", "x/(f + g)", "f*g - f", "f*g - g", "f/g + g", "(f + g + h)**2 - f:g - f:h",
     "f*x - x", "f/g:h", "f + f:(g + h)", "(f + g):(f + h)", "(f + g)**2", "f/x + g",
+    # the same term reached twice with its factors in another order: one term, one set of columns
+    "f:g + g:f", "(f + g)*(f + g)", "(f + g)*(g + f)", "(f + g)*(f + g + h)", "f*g + g:f", "f:g:h + h:f:g + g", "(f + g + h)**2 + g:f",
+    "f:x + x:f", "f*g - g:f",
 ]
 
 
